@@ -26,7 +26,7 @@ class Ctx:
         self.cfg = r.get("config") or {}
         self.met = C.impl_metrics(cout)
         self.ok = cout.get("outcome") == "ok"
-        self.modified = bool(self.met and self.met.get("status") == "modified")
+        self.modified = C.is_modified(cout) if not (isinstance((cout.get("result") or {}).get("content"), type(None)) and cout.get("outcome") == "ok") else bool(self.met and self.met.get("status") == "modified")
         self.has_model = m is not None and not (m or {}).get("driver_error")
 
 
@@ -124,7 +124,7 @@ def run(O, P, mod, pid):
         for ki, (cin, cout, m) in enumerate(calls):
             O.evaluations += 1
             ctx = Ctx(case, r, cin, cout, m)
-            outcomes[cout.get("outcome", "none") + ("/" + ctx.met["status"] if ctx.met else "")] += 1
+            outcomes[cout.get("outcome", "none") + ("/" + ("modified" if ctx.modified else "notmodified") if ctx.ok else "")] += 1
             sizes.append(len(cin.get("code", "")))
             if "harness_panic" in r or "config_panic" in r:
                 O.violation("harness/config panic: %s" % (r.get("harness_panic") or r.get("config_panic")),
